@@ -12,6 +12,7 @@ import (
 	"net"
 	"net/netip"
 	"os"
+	"sync"
 	"time"
 	"verif/core"
 
@@ -103,6 +104,9 @@ type Net struct {
 	// SendErrs lists the frames a link writer refused (it drops them, as the real writer does).
 	SendErrs []string
 	seq      int
+	// mu guards the fields above where handlers of several workers may append
+	// to them at the same time (InjectPar).
+	mu sync.Mutex
 }
 
 // InFlight is a frame travelling over a virtual link.
@@ -164,7 +168,7 @@ func (vn *Net) AddNode(name string, id *ids.Identity, opts NodeOpts) (*Node, err
 		Gate:     &Gate{},
 	}
 	n.Builder.SetFrameMargins(peering.FrameOffset, peering.FrameOverhead)
-	n.St = state.New(n, n.Store)
+	n.St = state.New(n, &GateStorage{Storage: n.Store, G: n.Gate})
 	if opts.WithTun {
 		n.Tun = &tun.Device{
 			RecvRaw:   make(chan []byte, 1000),
@@ -224,6 +228,8 @@ func (l *VLink) send(f frame.Frame, prio bool) error {
 	// header and MAC, then release the frame. A frame the writer cannot
 	// serialise is dropped there with an error, here as well.
 	data, err := f.FrameDataWithMargins(peering.FrameOffset, peering.FrameOverhead)
+	l.Owner.Net.mu.Lock()
+	defer l.Owner.Net.mu.Unlock()
 	if err != nil {
 		l.Owner.Net.SendErrs = append(l.Owner.Net.SendErrs, fmt.Sprintf("%s -> %s: type %d, %d bytes: %v", l.Owner.Name, l.Remote.Name, f.MessageType(), len(f.MessageData())+len(f.AppendixData()), err))
 		f.ReturnToPool()
@@ -317,7 +323,9 @@ func (vn *Net) HandleFrame(n *Node, f frame.Frame) Result {
 	if err != nil {
 		if errors.Is(err, mgr.ErrWorkerPanic) {
 			res.Panicked = true
+			vn.mu.Lock()
 			vn.Panics = append(vn.Panics, fmt.Sprintf("%s switch: %v", n.Name, err))
+			vn.mu.Unlock()
 		}
 		res.SwitchErr = err
 	}
@@ -358,13 +366,68 @@ func (vn *Net) DrainRouter(n *Node) Result {
 			if err != nil {
 				if errors.Is(err, mgr.ErrWorkerPanic) {
 					res.Panicked = true
+					vn.mu.Lock()
 					vn.Panics = append(vn.Panics, fmt.Sprintf("%s router: %v", n.Name, err))
+					vn.mu.Unlock()
 				}
 				res.RouterErrs = append(res.RouterErrs, err)
 			}
 		default:
 			return res
 		}
+	}
+}
+
+// InjectPar hands the given frames to n at the same time, one worker each, as
+// the router's per-core frame handlers would get copies that arrive over
+// several links at once. The node's gate, if armed, holds one of the workers at
+// a schedule point: the first worker is started and given time to reach it, then
+// the others run (they finish or block behind the held one), then the gate is
+// released. Returns the merged result and whether a worker was held; ok is
+// false if the workers did not finish (a stall).
+func (vn *Net) InjectPar(n *Node, recv []*VLink, datas [][]byte) (res Result, held bool, ok bool) {
+	var wg sync.WaitGroup
+	var rmu sync.Mutex
+	done := make([]chan struct{}, len(datas))
+	start := func(i int) {
+		done[i] = make(chan struct{})
+		wg.Add(1)
+		go func() {
+			defer wg.Done()
+			defer close(done[i])
+			r := vn.Inject(n, recv[i], datas[i])
+			rmu.Lock()
+			res.merge(r)
+			if r.ParseErr != nil {
+				res.ParseErr = r.ParseErr
+			}
+			rmu.Unlock()
+		}()
+	}
+	start(0)
+	for waited := 0; waited < 100 && !held; waited++ {
+		held = n.Gate.WaitReached(3 * time.Millisecond)
+		select {
+		case <-done[0]:
+			waited = 100
+		default:
+		}
+	}
+	for i := 1; i < len(datas); i++ {
+		start(i)
+		select {
+		case <-done[i]:
+		case <-time.After(100 * time.Millisecond):
+		}
+	}
+	n.Gate.Release()
+	fin := make(chan struct{})
+	go func() { wg.Wait(); close(fin) }()
+	select {
+	case <-fin:
+		return res, held, true
+	case <-time.After(StallTimeout + 5*time.Second):
+		return res, held, false
 	}
 }
 
